@@ -31,6 +31,16 @@ var engineAssumptions = []string{
 
 var checks = []Check{
 	{
+		ID: "C08", Title: "running services converge to the configured services and endpoints", Level: "model_checking",
+		LevelText: "explicit-state BFS (canonical-state de-duplication over store table + running processors + host sets) over every history up to depth 5/6 of dependency add/remove, valid/invalid configuration updates and endpoint updates (every added/removed subset combination of two addresses, including an address in both lists and removals before additions) for two services, fed through the real configuration store into the real controller with recording processors; controller draining after every update or only at the end; with and without a bootstrap static service; plus all schedules within bounds of the updater racing the controller loop",
+		Technique: "explicit-state BFS over operation histories of the real store+controller under a controlled scheduler + preemption-bounded schedule exploration",
+		Assumptions: append([]string{"recording processors (each owns a real host.Set) stand in for the real TCP/Redis processors", "the store's handlers are driven through injected wrappers instead of a live gRPC stream"}, engineAssumptions...),
+		Jobs: []Job{
+			{Pkg: "controller", Scenarios: []string{"C08/histories"}, Shards: 16, QuickS: 100, ThoroughS: 900},
+			{Pkg: "controller", Scenarios: []string{"C08/race"}, Shards: 16, QuickS: 60, ThoroughS: 600},
+		},
+	},
+	{
 		ID: "C16", Title: "discovery subscriptions track dependencies and survive stream failures", Level: "model_checking",
 		LevelText: "stateless exploration of all schedules within bounds of the real subscription client (Run with its sender loop, the receiver it spawns, one caller, a fault thread breaking the stream) over a scripted stream factory: every Subscribe/Unsubscribe sequence of length <= 4 over three names, 17-20 distinct Subscribes against the 16-entry queues, queues shrunk to 2; stream creation and Send failing as environment choices; virtual retry timers",
 		Technique: "preemption/delay-bounded stateless schedule exploration of the real goroutines with environment-fault choices",
